@@ -107,7 +107,7 @@ theorem new_refuses_rounds (hn : nonce.length = 12) (hk : key.length = 16 ∨ ke
   simp [Context.new, ChaCha.ChaCha.new, hn, hk, this]
 
 /-- every call of the incremental interface that the abstract machine (Proofs.AeadHist `absStep`: typing by phase,
-    equal buffer lengths, 16-byte tag) does not admit is refused by the model -/
+    equal buffer lengths, 16-byte tag) does not allow is refused by the model -/
 theorem incremental_step_refused (st : Phase × Context σ) (a : AbsSt) (op : Op)
     (hph : st.1 = a.phase) (h : absStep R key nonce a op = none) : ∃ e, step E R st op = .error e :=
   step_refuses E R key nonce st a op hph h
